@@ -10,6 +10,7 @@ import XL.Model.BookProto
 import XL.Model.Circ
 import XL.Model.Look
 import XL.Model.Fn
+import XL.Model.Blanks
 /-!
 # Request dispatcher of the executable model
 -/
@@ -184,6 +185,21 @@ def answerParse (cmd : String) (args : List String) : Option String :=
   | "book", _ => BookProto.answerBook args
   | "cbook", _ => CircProto.answerCBook args
   | "cycles", _ => CircProto.answerCycles args
+  | "blanks", c :: nl :: rest => do
+      -- `blanks compact nL L… (len cell…)*` : the listed cells after range assembly, in listing order
+      let c' ← c.toNat?; let n ← nl.toNat?
+      let (l, r1) ← CircProto.takeNats n rest
+      let rec ranges : Nat → List String → Option (List (List Nat))
+        | 0, _ => some []
+        | fuel + 1, k :: r => do
+            let k' ← k.toNat?
+            let (cells, r') ← CircProto.takeNats k' r
+            let more ← ranges fuel r'
+            pure (cells :: more)
+        | _, [] => some []
+      let rs ← ranges (r1.length + 1) r1
+      let res := Blanks.closure c' rs l
+      pure (if res.isEmpty then "-" else " ".intercalate (res.map toString))
   | "fit", R :: C :: r :: c :: vals => do
       -- `fit R C r c v…` : an r × c value stored into R × C cells, row-major
       let R' ← R.toNat?; let C' ← C.toNat?; let r' ← r.toNat?; let c' ← c.toNat?
